@@ -1,6 +1,7 @@
 package main
 
 import (
+	"verif/gosym"
 	"sync"
 
 	"verif/smt"
@@ -42,7 +43,10 @@ func (c *checkCtx) writeRegoReplay(o regosym.Outcome) string {
 	dir := filepath.Join(outDir(), "replays", c.spec.ID, fmt.Sprintf("%x", sum[:6]))
 	os.MkdirAll(dir, 0o755)
 	kind := "rego-verdict"
-	if strings.HasPrefix(o.Label, "C12.") || strings.HasPrefix(o.Label, "C14.location") || strings.HasPrefix(o.Label, "C13.") || strings.HasPrefix(o.Label, "C03.") {
+	if strings.HasSuffix(o.Label, ".profile-compiles") {
+		kind = "rego-compile"
+	}
+	if kind == "rego-verdict" && (strings.HasPrefix(o.Label, "C12.") || strings.HasPrefix(o.Label, "C14.location") || strings.HasPrefix(o.Label, "C13.") || strings.HasPrefix(o.Label, "C03.")) {
 		kind = "rego-shape"
 	}
 	if strings.HasPrefix(o.Label, "C02.") {
@@ -88,6 +92,16 @@ func (c *checkCtx) absorb(outs []regosym.Outcome, knownLabel string) {
 			dir := c.writeRegoReplay(o)
 			c.violations = append(c.violations, fmt.Sprintf("VIOLATION property=%s replay=%s label=%s program=%q signature=%s", c.spec.ID, dir, o.Label, o.Program, o.Signature))
 		case "compile-error", "generate-error":
+			if c.spec.ID == "C07" || c.spec.ID == "C13" {
+				// the property itself says such a profile compiles: the real generator's output was
+				// rejected by the real policy engine (or the real translator failed)
+				c.disagreements++
+				c.replayed++
+				o.Label = c.spec.ID + ".profile-compiles"
+				dir := c.writeRegoReplay(o)
+				c.violations = append(c.violations, fmt.Sprintf("VIOLATION property=%s replay=%s label=%s program=%q detail=%q", c.spec.ID, dir, o.Label, o.Program, firstLine(o.Detail)))
+				break
+			}
 			c.inconclusive(fmt.Sprintf("program %q: module rejected (%s): %s", o.Program, o.Status, firstLine(o.Detail)))
 		default:
 			c.inconclusive(fmt.Sprintf("program %q: %s: %s", o.Program, o.Status, firstLine(o.Detail)))
@@ -356,7 +370,8 @@ func regoC03(c *checkCtx) {
 
 // regoC13: placeholder substitution at evaluation time.
 func regoC13(c *checkCtx) {
-	msgs := []string{"m {{ex.p0}} end", "{{ex.p0}}", "say \"{{ex.p0}}\" 100% sure", "a\\b {{ ex.p0 }} c"}
+	msgs := []string{"m {{ex.p0}} end", "{{ex.p0}}", "say \"{{ex.p0}}\" 100% sure", "a\\b {{ ex.p0 }} c",
+		"{{ex.p0}} and {{ex.p0}}", "{{ ex.p0 }}-{{ex.p0}}", "{{ex.p0}}/{{ ex.p1 }}/{{ex.p0}}"}
 	var progs []regosym.Program
 	for _, m := range msgs {
 		p := regosym.Program{Name: "P", Validations: []regosym.Validation{{Name: "v", Level: "violation", Class: 0, Message: m,
@@ -375,6 +390,55 @@ func regoC13(c *checkCtx) {
 		return
 	}
 	c.absorb(outs, "C13.message-substitution")
+}
+
+// regoC07: every program of the declarative families (the ones the other properties evaluate) is
+// translated by the real translator and accepted by the real policy engine.
+func regoC07(c *checkCtx) {
+	thorough := c.tier == "thorough"
+	var progs []regosym.Program
+	progs = append(progs, regosym.FamilyAtoms(thorough)...)
+	progs = append(progs, regosym.FamilyQuantified(thorough)...)
+	progs = append(progs, regosym.FamilyNestedAtoms(thorough)...)
+	progs = append(progs, regosym.FamilyAtomPaths(thorough)...)
+	progs = append(progs, regosym.FamilySkeletons(2)...)
+	progs = append(progs, regosym.FamilyVariableIndex([]int{1, 2, 12, 22, 23, 24, 25, 26})...)
+	for _, b := range regosym.BaseProfilesC15() {
+		if b.Name != "B4" { // B4 embeds Rego: outside C07
+			progs = append(progs, b)
+		}
+	}
+	for _, m := range []string{"m {{ex.p0}} end", "{{ex.p0}} and {{ex.p0}}", "{{ ex.p0 }}-{{ex.p0}}", "{{ex.p0}}/{{ ex.p1 }}/{{ex.p0}}", "{{ex.p-0}} {{ex.p_0}}"} {
+		progs = append(progs, regosym.Program{Name: "P", Validations: []regosym.Validation{
+			{Name: "v", Level: "violation", Class: 0, Message: m, F: regosym.And{Fs: []regosym.Formula{regosym.Atom{Path: regosym.P(1), Kind: "minCount", N: 1}}}},
+			{Name: "w", Level: "warning", Class: 0, Message: m, F: regosym.Nested{Path: regosym.P(0), F: regosym.And{Fs: []regosym.Formula{regosym.Atom{Path: regosym.P(1), Kind: "minCount", N: 1}}}}}}})
+	}
+	c.evidence["bounds_regosym"] = map[string]any{"programs": len(progs), "families": "atoms, quantified, nested atoms, atom paths, skeletons of depth 2, variable indices up to 26, rewrite base profiles, messages with repeated / several placeholders"}
+	drv, err := regosym.BuildDriver(repoDir, verifDir(), regoWork(c))
+	if err != nil {
+		c.inconclusive("regosym: " + err.Error())
+		return
+	}
+	var texts []string
+	for _, p := range progs {
+		texts = append(texts, p.ProfileYAML())
+	}
+	gens, err := drv.Generate(texts)
+	if err != nil {
+		c.inconclusive("regosym: " + err.Error())
+		return
+	}
+	var outs []regosym.Outcome
+	for i, g := range gens {
+		o := regosym.Outcome{Program: regosym.DescribeProgram(progs[i]), Profile: texts[i], Status: "held"}
+		if g.Error != "" {
+			o.Status, o.Detail = "generate-error", g.Error
+		} else if msg := gosym.RegoCompileError(g.Code); msg != "" {
+			o.Status, o.Detail = "compile-error", msg
+		}
+		outs = append(outs, o)
+	}
+	c.absorb(outs, "C07.profile-compiles")
 }
 
 // regoC15: results are invariant under meaning-preserving rewrites of the profile text.
